@@ -216,6 +216,10 @@ class Universe:
                 for n in names:
                     if (gname, n) in uni.fail:
                         raise RuntimeError(f"VERIF-FAULT calc {gname}.{n}")
+                if g.get("cols_by_opt"):
+                    # option-dependent source data: the option group of the step selects the table
+                    val = next(iter(features.features)).options.get(g["opt_key"])
+                    _cols = g["cols_by_opt"][str(val)]
                 out = native_table(uni._cfw_name_of(cls, features), _cols)
                 uni.listener.on_exit(gname, names)
                 return out
@@ -511,7 +515,11 @@ def kf_framework_roundtrip(p: Dict[str, Any]) -> List[Tuple[int, int]]:
             if r["kind"] == "FG" and r["cfw"] == c["cfw"] and c["any_uuid"] in r["children_if_root"] and r["sid"] in wc:
                 out.append((c["sid"], r["sid"]))
             if r["kind"] == "TFS" and r["to_cfw"] == c["cfw"] and r["uuids"][0] not in c["req"] and r.get("link_id") is None:
-                out.append((c["sid"], r["sid"]))
+                # the object made by r copies the children of r's source object: ambiguous only if they contain c's lookup uuid
+                prod = _producers(p)
+                srcs = [prod[u] for u in r["req"] if u in prod and prod[u]["kind"] == "FG"]
+                if any(c["any_uuid"] in x.get("children_if_root", []) for x in srcs):
+                    out.append((c["sid"], r["sid"]))
     return out
 
 
